@@ -1284,7 +1284,12 @@ class Emitter:
                     except NotImplementedError:
                         pass
             if not done:
-                lines.append(f"{fn}((void*){args[0]}, (const void*){args[1]}, {args[2]});")
+                if isinstance(nv, ConstInt):
+                    lines.append(f"{fn}((void*){args[0]}, (const void*){args[1]}, {args[2]});")
+                else:
+                    # symbolic length: CBMC's built-in model was observed to lose bytes when the destination lies inside a struct
+                    # (std::string's local buffer); an explicit byte loop (with unwinding assertion) is precise
+                    lines.append(f"vf_{fn}((void*){args[0]}, (const void*){args[1]}, {args[2]});")
             throws = False
         elif name.startswith('llvm.memset'):
             lines.append(f"memset((void*){args[0]}, {args[1]}, {args[2]});"); throws = False
@@ -1559,6 +1564,17 @@ static void *__exc_obj; static int __exc_type; static int __exc_pending;
 #define __VERIFIER_assume_nonnull(p) ((void)0)
 #endif
 void __VERIFIER_unreachable(void);
+#ifdef __CPROVER__
+static void vf_memcpy(void *d, const void *s, u64 n) { u8 *dd = (u8 *)d; const u8 *ss = (const u8 *)s; for (u64 i = 0; i < n; ++i) dd[i] = ss[i]; }
+static void vf_memmove(void *d, const void *s, u64 n) {
+  u8 *dd = (u8 *)d; const u8 *ss = (const u8 *)s;
+  if (__CPROVER_POINTER_OBJECT(dd) == __CPROVER_POINTER_OBJECT(ss) && __CPROVER_POINTER_OFFSET(dd) > __CPROVER_POINTER_OFFSET(ss)) { for (u64 i = n; i > 0; --i) dd[i - 1] = ss[i - 1]; }
+  else { for (u64 i = 0; i < n; ++i) dd[i] = ss[i]; }
+}
+#else
+#define vf_memcpy memcpy
+#define vf_memmove memmove
+#endif
 static void *__exc_alloc(u64 n) { void *p = malloc(n); __VERIFIER_assume_nonnull(p); return p; }
 void __VERIFIER_trap(void);
 void __VERIFIER_indirect_call(void);
